@@ -369,14 +369,19 @@ def ob_interface_containers(r, tier, seed):
             import subprocess, tempfile, shutil, os
             from vlib import build
             d = tempfile.mkdtemp(prefix='vf-c13-')
-            open(os.path.join(d, 'sys.gom'), 'w').write('package Sys\nextern "go" "strings" "ToUpper" fn upper(s: string) -> string\nextern "go" "strings" "ToLower" fn lower(s: string) -> string\nextern "go" "os" "Getenv" fn getenv(s: string) -> string\n')
-            os.makedirs(os.path.join(d, 'out')); outs = set()
+            exts = [('strings', 'ToUpper', 'upper', 's: string', 'string'), ('strings', 'ToLower', 'lower', 's: string', 'string'), ('strconv', 'Itoa', 'itoa', 'n: int32', 'string'),
+                    ('os', 'Getenv', 'getenv', 's: string', 'string'), ('path', 'Base', 'base_name', 's: string', 'string'), ('html', 'EscapeString', 'html_escape', 's: string', 'string'),
+                    ('unicode/utf8', 'RuneCountInString', 'rune_count', 's: string', 'int32')]
+            open(os.path.join(d, 'sys.gom'), 'w').write('package Sys\n' + ''.join('extern "go" "%s" "%s" %s(%s) -> %s\n' % e_ for e_ in exts) + 'fn shout(s: string) -> string { upper(s) }\n')
+            os.makedirs(os.path.join(d, 'out')); outs = set(); errs = ''
             for i in range(12):
-                subprocess.run([build.compiler_bin(), 'build', '--package', 'Sys', '--input', os.path.join(d, 'sys.gom'), '--output', 'out/Sys'], capture_output=True, text=True, timeout=60, cwd=d)
-                fs = [f for f in os.listdir(os.path.join(d, 'out')) if 'interface' in f or f.endswith('.json')]
-                outs.add(tuple(open(os.path.join(d, 'out', f)).read() for f in sorted(fs)))
+                o_ = os.path.join(d, 'out', 'Sys%d.interface' % i)
+                p2 = subprocess.run([build.compiler_bin(), 'check', '--package', 'Sys', '--input', os.path.join(d, 'sys.gom'), '--output', o_], capture_output=True, text=True, timeout=60, cwd=d)
+                if not os.path.exists(o_): errs = (p2.stderr or p2.stdout)[:200]; continue
+                outs.add(open(o_).read())
+            if not outs: raise RuntimeError('no interface file written: ' + errs)
             shutil.rmtree(d, ignore_errors=True)
-            ok_ = len(outs) > 1; detail = '12 builds of a package with three extern functions write %d different interface files' % len(outs)
+            ok_ = len(outs) > 1; detail = '12 runs of `compiler check` on a package with seven extern functions write %d different interface files' % len(outs)
         except Exception as e: detail += ' (CLI replay failed: %s)' % str(e)[:120]
         r.findings.append(Finding('interface-field-in-hash-order', 'the serialized interface contains the field %s of type %s: its entries are written in per-process hash order' % (p_, t[:100]), {'field': p_, 'type': t}, ok_, detail))
 
